@@ -163,6 +163,9 @@ pub struct ReadCase {
     /// errors per 1000 bases
     pub err_pm: u8,
     pub read_seed: u64,
+    /// a multi-copy element: (copies 0..=8, element length selector); multiplicities then exceed 255
+    #[serde(default)]
+    pub repeat: (u8, u16),
 }
 
 fn reads_strategy() -> BoxedStrategy<ReadCase> {
@@ -174,8 +177,9 @@ fn reads_strategy() -> BoxedStrategy<ReadCase> {
         80u8..=150,
         0u8..=30,
         any::<u64>(),
+        prop_oneof![7 => Just((0u8, 0u16)), 1 => (6u8..=8, any::<u16>())],
     )
-        .prop_map(|(k, rc, genome, coverage, read_len, err_pm, read_seed)| ReadCase { k, rc, genome, coverage, read_len, err_pm, read_seed })
+        .prop_map(|(k, rc, genome, coverage, read_len, err_pm, read_seed, repeat)| ReadCase { k, rc, genome, coverage, read_len, err_pm, read_seed, repeat })
         .boxed()
 }
 
@@ -192,9 +196,29 @@ impl Rng {
 
 /// deterministic read simulation: a pure function of the case (placement from `read_seed`)
 fn simulate(c: &ReadCase) -> (Vec<(Vec<u8>, Vec<u8>)>, Vec<(Vec<u8>, Vec<u8>)>) {
-    let g = gen::bases_to_seq(&c.genome);
+    let mut g = gen::bases_to_seq(&c.genome);
+    if c.repeat.0 > 0 {
+        // copies of one element of 4000-6000 bases spread over the genome: with coverage >= 50 at least 50
+        // split k-mers share multiplicities above 255
+        let el_len = 4000 + gen::idx(c.repeat.1, 2000);
+        let mut st = c.read_seed ^ 0xE1E;
+        let el: Vec<u8> = (0..el_len)
+            .map(|_| {
+                st = st.wrapping_add(0x9E37_79B9_7F4A_7C15);
+                model::BASES[(splitmix64(st) & 3) as usize]
+            })
+            .collect();
+        g.extend_from_slice(&el);
+        for i in 1..c.repeat.0 as usize {
+            let at = (i * g.len() / c.repeat.0 as usize).min(g.len());
+            let tail = g.split_off(at);
+            g.extend_from_slice(&el);
+            g.extend(tail);
+        }
+    }
     let rl = (c.read_len as usize).min(g.len());
-    let n_reads = g.len() * c.coverage as usize / rl;
+    let coverage = if c.repeat.0 > 0 { c.coverage.max(50) } else { c.coverage };
+    let n_reads = g.len() * coverage as usize / rl;
     let mut rng = Rng(c.read_seed);
     let (mut f1, mut f2) = (Vec::new(), Vec::new());
     for i in 0..n_reads {
@@ -354,6 +378,7 @@ fn check_reads(c: &ReadCase, ctx: &Ctx) -> Outcome {
             if !c.rc { cl.push("single_strand"); }
             if c.err_pm == 0 { cl.push("error_free"); }
             if len >= 50 { cl.push("table>=50_rows"); }
+            if len > 255 { cl.push("multiplicities>255"); }
             pass(true, key_of(&(c.k, c.rc, &c.genome, c.coverage, c.read_len, c.err_pm, c.read_seed)), cl)
         }
     }
@@ -372,7 +397,7 @@ fn stages(tier: Tier) -> Vec<Box<dyn Stage>> {
         ),
         gen_stage_show(
             "reads",
-            "generated: genome 2-6 kb, coverage 10-80, read length 80-150, error 0-3%, 0.05% N, both orientations, reads alternating over two files (placement is a pure function of the case's read_seed), k in {5,9,15,21,31,33,41,63} or any valid k, both strand modes. Oracle: fitted histogram (hook) and printed K_mers column == model multiplicity histogram of canonical split k-mers up to the last multiplicity shared by >= 50; cutoff (return value, stored, stderr) == harness cutoff for the fitted parameters; labels Error iff count < cutoff; Mixture_density == harness density (rel 1e-9). A fit that does not converge is inconclusive. Every decided case non-trivial.",
+            "generated: genome 2-6 kb (in an eighth of the cases with a 4-6 kb element in 6-8 copies and coverage >= 50, so that >= 50 k-mers share multiplicities above 255), coverage 10-80, read length 80-150, error 0-3%, 0.05% N, both orientations, reads alternating over two files (placement is a pure function of the case's read_seed), k in {5,9,15,21,31,33,41,63} or any valid k, both strand modes. Oracle: fitted histogram (hook) and printed K_mers column == model multiplicity histogram of canonical split k-mers up to the last multiplicity shared by >= 50; cutoff (return value, stored, stderr) == harness cutoff for the fitted parameters; labels Error iff count < cutoff; Mixture_density == harness density (rel 1e-9). A fit that does not converge is inconclusive. Every decided case non-trivial.",
             tier.pick(320, 4000),
             30,
             reads_strategy,
